@@ -11,6 +11,7 @@ import (
 	"os"
 	"reflect"
 	"sort"
+	"strings"
 	"syscall"
 	"testing"
 	"time"
@@ -174,6 +175,9 @@ func c13Check(c c13Case) [][2]string {
 			out = append(out, [2]string{"C13:source-failure-swallowed", "address source failed but Apply returned nil (advertising " + fmt.Sprint(c13Describe(got)) + ")"})
 		}
 		return out
+	}
+	if err != nil && strings.HasPrefix(err.Error(), "verif: second build differs") {
+		return [][2]string{{"C13:rebuild-differs", fmt.Sprintf("addresses %s stanza %d: %v", ev.JSON(c.Addrs), c.Stanza, err)}}
 	}
 	if err != nil && c.Transient > 0 {
 		return out // the listing did fail during this build: failing RA generation is right
